@@ -519,6 +519,29 @@ def result_shape(op: List[Any], st: List[Any], sl: List[Any]) -> str:
     return f"strict={cls(st)},lenient={cls(sl)}"
 
 
+def strict_failure_site(op: List[Any], sl: List[Any], exc_mod) -> str:
+    """Raising site of the strict-mode failure of the service-level decode that lenient mode lets through."""
+    layer = STATE["layers"][op[1]]
+    pdu = bytes.fromhex(op[3])
+    names = [m[0] for m in sl[1]] if isinstance(sl[1], list) else []
+    sites = set()
+    old = exc_mod.strict_mode
+    exc_mod.strict_mode = True
+    try:
+        for svc in layer.services:
+            cos = ([svc.request] if svc.request is not None else []) + list(svc.positive_responses) + list(
+                svc.negative_responses)
+            for co in cos:
+                if co.short_name in names:
+                    try:
+                        co.decode(pdu)
+                    except Exception as e:  # noqa: BLE001
+                        sites.add(exc_site(e))
+    finally:
+        exc_mod.strict_mode = old
+    return ",".join(sorted(sites)) or "none"
+
+
 def outcome_str(o: Tuple[str, Any]) -> str:
     return json.dumps([o[0], o[1]], sort_keys=True, default=str)
 
@@ -592,11 +615,15 @@ def execute(trace: Dict[str, Any]) -> Dict[str, Any]:
                         probes["outcome_differs_between_modes"] = probes.get("outcome_differs_between_modes", 0) + 1
                     # O1: lenient mode changes nothing valid
                     if st[0] == "ok" and ref[k][False] != ref[k][True]:
+                        shape = result_shape(op, st, sl)
+                        sig1 = {"kind": op[0], "entry": op[2] if op[0] == "dec" else None,
+                                "lenient": sl[0] if sl[0] == "ok" else sl[1].get("exc"), "shape": shape}
+                        if shape == "strict=gnr-fallback,lenient=service-decode":
+                            # which downgraded error made the service-level decode succeed in lenient mode?
+                            sig1["strict_site"] = strict_failure_site(op, sl, exc_mod)
                         violations.append({
                             "oracle": "C17.O1-lenient-changes-nothing-valid",
-                            "sig": {"kind": op[0], "entry": op[2] if op[0] == "dec" else None,
-                                    "lenient": sl[0] if sl[0] == "ok" else sl[1].get("exc"),
-                                    "shape": result_shape(op, st, sl)},
+                            "sig": sig1,
                             "detail": {"op": op, "strict": ref[k][True][:300], "lenient": ref[k][False][:300]}})
                     # O4: an error raised by the strictness mechanism is downgraded
                     if st[0] == "exc" and st[1]["site"].endswith("[odxraise]") and sl[0] == "exc" and \
